@@ -2,7 +2,7 @@ import Mkts.Lemmas.Agg
 /-!
 # C23 — Scalar aggregates and gap detection are correct
 
-Model: `Mkts.Agg` (uda/count, uda/min, uda/max, uda/avg, uda/gap, uda/datatypes.go) over the
+Model: `Mkts.Agg` (uda/count, uda/min, uda/max, uda/avg, uda/gap, uda/uda.go) over the
 bit-level float model `Mkts.Float`.  An aggregate is `New` followed by any number of `Accum` calls
 (`finalState accum new batches`); the SQL pipeline (`AggRunner.Run`, `SelectRelation.Materialize`)
 makes exactly one call with the whole input.  `vss : List (List Int)` is an arbitrary split of the
